@@ -176,3 +176,8 @@ CHECKS['C15'] = dict(title='C15', parallel=1, parts=[world_part('w', quick=[_w('
 CHECKS['C16'] = dict(title='C16', parallel=1, parts=[world_part('w', quick=[_w('C16', 2, 3, 5, 150)], thorough=[_w('C16', 3, 4, 8, 1500, 2)])])
 CHECKS['C17'] = dict(title='C17', parallel=1, parts=[world_part('w', quick=[_w('C17', 2, 2, 5, 150)], thorough=[_w('C17', 3, 3, 8, 1500, 2)])])
 CHECKS['C19'] = dict(title='C19', parallel=1, parts=[world_part('w', quick=[_w('C19', 2, 0, 5, 150)], thorough=[_w('C19', 3, 1, 8, 1500, 2)])])
+CHECKS['C09'] = dict(title='C09', parallel=1, parts=[world_part('w', quick=[_w('C09', 1, 0, 4, 150)], thorough=[_w('C09', 2, 1, 6, 1500, 2)])])
+CHECKS['C03'] = dict(title='C03', parallel=1, parts=[world_part('w', quick=[_w('C03', 2, 1, 4, 150)], thorough=[_w('C03', 3, 2, 6, 1500, 2)])])
+CHECKS['C13'] = dict(title='C13', parallel=1, parts=[world_part('w', quick=[_w('C13', 1, 0, 5, 150)], thorough=[_w('C13', 2, 1, 8, 1500, 2)])])
+CHECKS['C18'] = dict(title='C18', parallel=1, parts=[world_part('w', quick=[_w('C18', 2, 0, 5, 150)], thorough=[_w('C18', 3, 1, 7, 1500, 2)])])
+CHECKS['C20'] = dict(title='C20', parallel=1, parts=[world_part('w', quick=[_w('C20', 2, 1, 4, 150)], thorough=[_w('C20', 3, 2, 6, 1500, 2)])])
